@@ -68,8 +68,9 @@ WriteLoop(data, p, n, C) ==
   IF n <= 0 THEN [data |-> data, p |-> p]
   ELSE LET i == Containing(data, p) IN
        IF i = 0
-         THEN \* append a container of the default size; the first container of an empty list sits at 0
-              LET np == IF data = <<>> THEN 0 ELSE data[Len(data)].pos + data[Len(data)].size
+         THEN \* append a container of the default size, chained to the last one; the first container
+              \* of an empty list starts at the put position (fix of F11)
+              LET np == IF data = <<>> THEN p ELSE data[Len(data)].pos + data[Len(data)].size
               IN WriteLoop(Append(data, [pos |-> np, size |-> C]), p, n, C)
          ELSE LET k == MinI(n, data[i].size - (p - data[i].pos)) IN
               WriteLoop(data, p + k, n - k, C)
